@@ -54,10 +54,11 @@ IRFS = {
     "none": None,
     "gaussian": {"type": "gaussian", "center": "irf.c", "width": "irf.w"},
     "shifted": {"type": "multi-gaussian", "center": ["irf.c"], "width": ["irf.w", "irf.w2"], "shift": ["irf.s1", "irf.s2", "irf.s3", "irf.s4"]},
+    "backsweep": {"type": "gaussian", "center": "irf.c", "width": "irf.w", "backsweep": True, "backsweep_period": "irf.bp"},
     "dispersed": {"type": "spectral-multi-gaussian", "center": ["irf.c"], "width": ["irf.w"], "dispersion_center": "irf.dc",
                   "center_dispersion_coefficients": ["irf.d1", "irf.d2"]},
 }
-IRF_PARAMS = [["irf.c", 0.35], ["irf.w", 0.12], ["irf.w2", 0.3], ["irf.s1", 0.05], ["irf.s2", -0.03], ["irf.s3", 0.08], ["irf.s4", 0.0],
+IRF_PARAMS = [["irf.bp", 13.0, {"vary": False}], ["irf.c", 0.35], ["irf.w", 0.12], ["irf.w2", 0.3], ["irf.s1", 0.05], ["irf.s2", -0.03], ["irf.s3", 0.08], ["irf.s4", 0.0],
               ["irf.dc", 550.0, {"vary": False}], ["irf.d1", 0.04], ["irf.d2", -0.01]]
 
 
@@ -92,7 +93,9 @@ def family_parallel_artifact(irf, p_comp, p_mc):
         mcs.append(("mc_art", {"type": "coherent-artifact", "order": 2}))
     mcs = perm_apply(mcs, [i for i in p_mc if i < len(mcs)])
     spec = {"megacomplex": dict(mcs), "dataset": {"d1": {"megacomplex": [m for m, _ in mcs]}}}
-    params = [["k.a", 1.4], ["k.b", 0.4], ["k.c", 0.05], ["k.q1", 2.2], ["k.q2", 0.15]]
+    # with a back-sweeping IRF one compartment practically does not decay (rate x period <= 1e-3: the library drops the
+    # back-sweep term for it): the branch taken for one compartment must not depend on where it is declared
+    params = [["k.a", 1.4], ["k.b", 0.4], ["k.c", 1e-9 if irf == "backsweep" else 0.05, {"vary": irf != "backsweep"}], ["k.q1", 2.2], ["k.q2", 0.15]]
     return spec, params
 
 
